@@ -1595,10 +1595,13 @@ impl Analyzable for TxDef {
         }
 
         // each pass resolves one more link of a chain of locals, inputs and outputs that
-        // refer to each other, and a chain can't be longer than the number of artifacts
+        // refer to each other, and a chain can't be longer than the number of artifacts,
+        // plus the block that uses its head (a chain of locals read by nothing but the
+        // metadata)
         let links = self.locals.as_ref().map_or(0, |x| x.assigns.len())
             + self.inputs.len()
-            + self.outputs.len();
+            + self.outputs.len()
+            + 1;
 
         // a definition that refers to itself can't be resolved, and every pass spent trying
         // multiplies the size of what the previous one embedded; the passes themselves tell
